@@ -96,6 +96,22 @@ def unquote(s: str) -> str:
     return s
 
 
+def split_outside_quotes(line: str) -> list[str]:
+    """event fields are separated by commas; a file name is written in double quotes and may contain commas"""
+    out, cur, q = [], [], False
+    for ch in line:
+        if ch == '"':
+            q = not q
+            cur.append(ch)
+        elif ch == "," and not q:
+            out.append("".join(cur))
+            cur = []
+        else:
+            cur.append(ch)
+    out.append("".join(cur))
+    return out
+
+
 def parse(data: bytes) -> dict:
     """bytes of a .osu file -> denotation. Raises RefError when the text is not
     well-formed v14 mania."""
@@ -156,7 +172,7 @@ def parse(data: bytes) -> dict:
     background = None
     samples = []
     for ln, line in events:
-        p = line.split(",")
+        p = split_outside_quotes(line)
         head = p[0].strip()
         if head in ("0",) and len(p) >= 3 and background is None:
             background = unquote(p[2])
